@@ -13,8 +13,10 @@ func configArgs(st Step) (global bool, sec, key, val string, ok bool) {
 	}
 	var pos []string
 	for _, x := range st.Args[1:] {
-		if x == "--global" {
+		if x == "--global" || x == "--global=true" {
 			global = true
+		} else if x == "--global=false" {
+			global = false
 		} else {
 			pos = append(pos, x)
 		}
@@ -205,7 +207,7 @@ func checkC20(e *RunEnv) *CheckResult {
 		}
 		bfsSteps = append(bfsSteps, mk("user.name", "N"+sfx), mk("user.name", "a=b "+sfx), mk("user.email", sfx+"@b.co"), mk("user.x", "v"), mk("core.x", "w=1"), mk("core.name", "C"+sfx))
 	}
-	invalid := []Step{Run("config", "a.b.c", "v"), Run("config", "nodot", "v"), Run("config", "user.name"), Run("config", "user.name", "a", "b"),
+	invalid := []Step{Run("config", "--global=false", "user.name", "NF"), Run("config", "--global=true", "user.email", "T@b.co"), Run("config", "a.b.c", "v"), Run("config", "nodot", "v"), Run("config", "user.name"), Run("config", "user.name", "a", "b"),
 		{Op: "run", Args: []string{"config", ".k", "v"}, Invalid: true}, {Op: "run", Args: []string{"config", "s.", "v"}, Invalid: true}}
 	spec := &Spec{
 		Seeds: []Seed{{"init", []Step{Run("init")}}},
